@@ -316,6 +316,8 @@ Definition ufit (r : req) (t : tree) : bool :=
   match r with
   | RExpr _ | RPattern _ | RExprEmb _ => true
   | RParenthesized _ _ => is_kind KParenthesized t
+  | RMarkup _ _ => is_kind KMarkup t
+  | RContentBlock _ => is_kind KContentBlock t
   | RNamed _ => is_kind KNamed t
   | RKeyed _ => is_kind KKeyed t
   | RSpread _ => is_kind KSpread t
@@ -326,13 +328,12 @@ Definition ufit (r : req) (t : tree) : bool :=
   | _ => false
   end.
 
-(* kinds whose converter is NOT covered: markup and math constructs and blocks (code and content); a paragraph break
-   and a comment are not calm either *)
+(* kinds whose converter is NOT covered: raw elements, references, headings, list/enum/term items, the math constructs
+   and code blocks; a paragraph break and a comment are not calm either *)
 Definition okind (k : kind) : bool :=
   match k with
-  | KMarkup | KParbreak | KLineComment | KBlockComment | KStrong | KEmph | KRaw | KRef | KHeading | KListItem | KEnumItem
-  | KTermItem | KEquation | KMath | KMathDelimited | KMathAttach | KMathRoot | KMathPrimes | KMathFrac | KCode | KCodeBlock
-  | KContentBlock => false
+  | KParbreak | KLineComment | KBlockComment | KRaw | KRef | KHeading | KListItem | KEnumItem
+  | KTermItem | KEquation | KMath | KMathDelimited | KMathAttach | KMathRoot | KMathPrimes | KMathFrac | KCode | KCodeBlock => false
   | _ => true
   end.
 (* the callee of a call is `table` or `grid` (their argument lists have layouts of their own) *)
@@ -653,18 +654,12 @@ Section Hereditary.
     Proof.
       induction l as [|y l IH]; cbn; [auto|]. destruct (kind_eqb (bk y) k); [auto|]. intros H. right. auto.
     Qed.
-    Lemma no_content_block l : (forall x, In x l -> In x kids) -> filter (fun b => kind_eqb (bk b) KContentBlock) l = [].
+    Lemma additional_args_unb c hp : c_supp c = true -> post (convert_additional_args kids c hp) unb.
     Proof.
-      intros Hsub. induction l as [|y l IH]; [reflexivity|]. cbn.
-      assert (E : kind_eqb (bk y) KContentBlock = false).
-      { pose proof (rs_okind _ (kid_rs y (Hsub y (or_introl eq_refl)))) as K. unfold bk.
-        destruct (kind_of (bt y)); try reflexivity; discriminate K. }
-      rewrite E. apply IH. intros x Hx. apply Hsub. right. exact Hx.
-    Qed.
-    Lemma additional_args_unb c hp : post (convert_additional_args kids c hp) unb.
-    Proof.
-      unfold convert_additional_args. rewrite no_content_block; [cbn [foldM]; apply post_ret; reflexivity|].
-      intros x Hx. apply (In_skip_until _ _ _ Hx).
+      intros Hs. unfold convert_additional_args. apply post_foldM; [reflexivity|].
+      intros d b Hin Hd. apply filter_In in Hin. destruct Hin as [Hin Hk]. apply In_skip_until in Hin.
+      apply (post_bind _ _ unb); [apply kid_call; [exact Hin|exact Hk|exact Hs]|].
+      intros x Hx. apply post_ret. apply unb_append; assumption.
     Qed.
     Lemma arg_call c0 : c_supp c0 = true ->
       forall c' n, c_supp c' = c_supp c0 -> In n kids -> post (convert_arg c' n) unb.
@@ -692,7 +687,7 @@ Section Hereditary.
     Proof.
       intros Hs. unfold convert_args. apply (post_bind _ _ unb).
       - destruct (has_parenthesized_args kids); [apply parenthesized_args_unb; exact Hs|apply post_ret; reflexivity].
-      - intros p Hp. apply (post_bind _ _ unb); [apply additional_args_unb|]. intros a Ha. apply post_ret. apply unb_append; assumption.
+      - intros p Hp. apply (post_bind _ _ unb); [apply additional_args_unb; exact Hs|]. intros a Ha. apply post_ret. apply unb_append; assumption.
     Qed.
     Lemma In_firstn' {A} n (l : list A) x : In x (firstn n l) -> In x l.
     Proof. revert l. induction n as [|n IH]; intros [|y l] H; cbn in *; try contradiction. destruct H; auto. Qed.
@@ -721,7 +716,7 @@ Section Hereditary.
       intros Hs. unfold convert_func_call_args. destruct (is_math_mode (c_mode c)); [apply args_in_math_unb; exact Hs|].
       apply (post_bind _ _ unb).
       - destruct (has_parenthesized_args kids); [apply parenthesized_args_unb; exact Hs|apply post_ret; reflexivity].
-      - intros p Hp. apply (post_bind _ _ unb); [apply additional_args_unb|]. intros a Ha. apply post_ret. apply unb_append; assumption.
+      - intros p Hp. apply (post_bind _ _ unb); [apply additional_args_unb; exact Hs|]. intros a Ha. apply post_ret. apply unb_append; assumption.
     Qed.
 
     Lemma find_bt (p : tree -> bool) l : find p (map bt l) = option_map bt (find (fun b => p (bt b)) l).
@@ -753,6 +748,166 @@ Section Hereditary.
                rewrite Hnt. apply kid_call; [exact Hin|exact Hk|exact Hs].
             -- destruct (is_math_mode (c_mode c)); [apply post_panic|apply post_ret; reflexivity].
           * intros a Ha. apply post_ret. apply unb_append; assumption.
+    Qed.
+
+    (* --- markup bodies: content blocks, strong and emphasised text --- *)
+    Definition calm_boundary (b : boundary) : bool :=
+      match b with BBreak | BWeakBreak => false | _ => true end.
+    Lemma space_nolb n : In n kids -> kind_eqb (bk n) KSpace = true -> has_lb (tx n) = false.
+    Proof. intros Hin Hk. unfold tx. apply rs_space_nolb; [apply kid_rs; exact Hin|]. apply kind_eqb_eq. exact Hk. Qed.
+    Lemma not_parbreak n : In n kids -> kind_eqb (bk n) KParbreak = false.
+    Proof.
+      intros Hin. pose proof (rs_okind _ (kid_rs n Hin)) as K. unfold bk. destruct (kind_of (bt n)); try reflexivity; discriminate K.
+    Qed.
+    Lemma strip_space_calm b : calm_boundary b = true -> calm_boundary (strip_space b) = true.
+    Proof. destruct b; auto. Qed.
+
+    (* the loop of collect_markup_repr never closes a line: no paragraph break, no blank with a line break *)
+    Lemma repr_fold_calm : forall l lines cur sb,
+      (forall n, In n l -> In n kids) ->
+      lines = [] -> ml_breaks cur = 0 -> calm_boundary sb = true -> (forall n, In n (ml_nodes cur) -> In n kids) ->
+      let '(lines', cur', sb') := fold_left repr_step l (lines, cur, sb) in
+      lines' = [] /\ ml_breaks cur' = 0 /\ calm_boundary sb' = true /\ (forall n, In n (ml_nodes cur') -> In n kids).
+    Proof.
+      induction l as [|x l IH]; intros lines cur sb Hsub Hl Hb Hs Hc; cbn [fold_left]; [auto|].
+      assert (Hx : In x kids) by (apply Hsub; left; reflexivity).
+      assert (Hsub' : forall n, In n l -> In n kids) by (intros n Hn; apply Hsub; right; exact Hn).
+      assert (Hstep : exists cur1 sb1, repr_step (lines, cur, sb) x = (lines, cur1, sb1) /\ ml_breaks cur1 = 0 /\
+                        calm_boundary sb1 = true /\ (forall n, In n (ml_nodes cur1) -> In n kids)).
+      { unfold repr_step. rewrite (not_parbreak x Hx).
+        destruct (kind_eqb (bk x) KSpace) eqn:Ek.
+        - rewrite (space_nolb x Hx Ek). cbn [andb].
+          destruct (match ml_nodes cur with [] => true | _ => false end) eqn:En; cbn [andb].
+          + exists cur, (boundary_from_space (tx x)). repeat split; auto.
+            unfold boundary_from_space. rewrite (space_nolb x Hx Ek). reflexivity.
+          + eexists _, _. split; [reflexivity|]. cbn [ml_breaks ml_nodes]. repeat split; [exact Hb| |].
+            * exact Hs.
+            * intros n Hn. apply in_app_or in Hn. destruct Hn as [Hn|[<-|[]]]; auto.
+        - cbn [andb]. eexists _, _. split; [reflexivity|]. cbn [ml_breaks ml_nodes]. repeat split; [exact Hb| |].
+          + match goal with |- calm_boundary (if ?b then _ else _) = true => destruct b end; [apply strip_space_calm|]; exact Hs.
+          + intros n Hn. apply in_app_or in Hn. destruct Hn as [Hn|[<-|[]]]; auto. }
+      destruct Hstep as (cur1 & sb1 & -> & Hb1 & Hs1 & Hc1). apply IH; assumption.
+    Qed.
+
+    Lemma strip_trailing_calm : forall r eb,
+      (forall n, In n r -> In n kids) -> calm_boundary eb = true ->
+      calm_boundary (snd (strip_trailing_spaces r eb)) = true /\ (forall n, In n (fst (strip_trailing_spaces r eb)) -> In n r).
+    Proof.
+      induction r as [|n r IH]; intros eb Hsub He; cbn [strip_trailing_spaces]; [auto|].
+      destruct (kind_eqb (bk n) KSpace) eqn:Ek.
+      - destruct (IH (boundary_from_space (tx n))) as [H1 H2].
+        + intros m Hm. apply Hsub. right. exact Hm.
+        + unfold boundary_from_space. rewrite (space_nolb n (Hsub n (or_introl eq_refl)) Ek). reflexivity.
+        + split; [exact H1|]. intros m Hm. right. apply H2. exact Hm.
+      - cbn [fst snd]. split; [|auto]. destruct (is_block_elem n); [apply strip_space_calm|]; exact He.
+    Qed.
+
+    Lemma bound_through_calm nodes : (forall n, In n nodes -> In n kids) ->
+      match bound_through_comments nodes (find (fun b => negb (is_comment_b b)) nodes) with
+      | Some x => calm_boundary x = true | None => True end.
+    Proof.
+      intros Hsub. unfold bound_through_comments.
+      destruct (find (fun b => negb (is_comment_b b)) nodes) as [it|] eqn:Ef.
+      - destruct (is_block_elem it); [reflexivity|]. destruct (kind_eqb (bk it) KSpace); [reflexivity|exact I].
+      - destruct nodes as [|n0 nr]; [exact I|]. exfalso.
+        pose proof (find_none _ _ Ef n0 (or_introl eq_refl)) as Hn. cbn beta in Hn.
+        pose proof kids_nc as K. rewrite Forall_forall in K. rewrite (K n0 (Hsub n0 (or_introl eq_refl))) in Hn. discriminate Hn.
+    Qed.
+    Lemma bound_through_calm_rev nodes : (forall n, In n nodes -> In n kids) ->
+      match bound_through_comments nodes (find (fun b => negb (is_comment_b b)) (rev nodes)) with
+      | Some x => calm_boundary x = true | None => True end.
+    Proof.
+      intros Hsub. unfold bound_through_comments.
+      destruct (find (fun b => negb (is_comment_b b)) (rev nodes)) as [it|] eqn:Ef.
+      - destruct (is_block_elem it); [reflexivity|]. destruct (kind_eqb (bk it) KSpace); [reflexivity|exact I].
+      - destruct nodes as [|n0 nr]; [exact I|]. exfalso.
+        assert (Hin : In n0 (rev (n0 :: nr))) by (apply in_rev; rewrite rev_involutive; left; reflexivity).
+        pose proof (find_none _ _ Ef n0 Hin) as Hn. cbn beta in Hn.
+        pose proof kids_nc as K. rewrite Forall_forall in K. rewrite (K n0 (Hsub n0 (or_introl eq_refl))) in Hn. discriminate Hn.
+    Qed.
+
+    (* the representation of a calm markup body: at most one line, no mandatory break, edges that are not breaks *)
+    Lemma repr_calm :
+      let r := collect_markup_repr kids in
+      calm_boundary (mr_start r) = true /\ calm_boundary (mr_end r) = true /\
+      Forall (fun ln => ml_breaks ln = 0 /\ forall n, In n (ml_nodes ln) -> In n kids) (mr_lines r).
+    Proof.
+      unfold collect_markup_repr.
+      pose proof (repr_fold_calm kids [] ml_empty BNil (fun n H => H) eq_refl eq_refl eq_refl (fun n (H : In n []) => match H with end)) as F.
+      destruct (fold_left repr_step kids ([], ml_empty, BNil)) as [[lines0 cur] sb].
+      destruct F as (-> & Hb & Hs & Hc). cbn [app].
+      destruct (ml_nodes cur) as [|c0 cr] eqn:En.
+      - cbn. destruct (boundary_eqb sb BNil); repeat split; try reflexivity; try exact Hs; constructor.
+      - cbn [rev app]. rewrite Hb. cbn [N.ltb N.compare]. change (0 <? 0) with false. cbv iota.
+        destruct (strip_trailing_calm (rev (ml_nodes cur)) BNil) as [He Hsubn].
+        { intros n Hn. apply in_rev in Hn. apply Hc. rewrite <- En. exact Hn. }
+        { reflexivity. }
+        destruct (strip_trailing_spaces (rev (ml_nodes cur)) BNil) as [rn eb1] eqn:Est. cbn [fst snd] in He, Hsubn.
+        cbn [app mr_start mr_end mr_lines rev].
+        assert (Hnodes : forall n, In n (rev rn) -> In n kids).
+        { intros n Hn. apply in_rev in Hn. apply Hsubn in Hn. apply in_rev in Hn. apply Hc. rewrite <- En. exact Hn. }
+        repeat split.
+        + destruct (boundary_eqb sb BNil); [|exact Hs]. cbn [ml_nodes].
+          pose proof (bound_through_calm (rev rn) Hnodes) as B.
+          destruct (bound_through_comments (rev rn) _); [exact B|exact Hs].
+        + destruct (boundary_eqb eb1 BNil); [|exact He]. cbn [ml_nodes].
+          pose proof (bound_through_calm_rev (rev rn) Hnodes) as B.
+          destruct (bound_through_comments (rev rn) _); [exact B|exact He].
+        + constructor; [|constructor]. cbn [ml_breaks ml_nodes]. split; [reflexivity|exact Hnodes].
+    Qed.
+
+    Lemma markup_unb c sc0 : c_supp c = true -> post (convert_markup_impl swidth t kids c sc0) unb.
+    Proof.
+      intros Hs. unfold convert_markup_impl. apply post_bump_then.
+      destruct (is_only_one_and kids _); [apply post_ret; reflexivity|].
+      destruct repr_calm as (Hsb & Heb & Hlines).
+      apply (post_bind _ _ unb).
+      - apply post_foldM; [reflexivity|]. intros d ln Hln Hd. rewrite Forall_forall in Hlines.
+        destruct (Hlines ln Hln) as [Hbr Hnodes].
+        apply (post_bind _ _ unb).
+        + apply post_foldM; [exact Hd|]. intros d0 node Hin Hd0. pose proof (Hnodes node Hin) as Hk.
+          apply (post_bind _ _ unb).
+          * destruct (kind_eqb (bk node) KSpace); [apply post_ret; reflexivity|].
+            destruct (kind_eqb (bk node) KText); [apply post_ret; apply verbatim_unb|].
+            destruct (is_expr (bt node)).
+            { apply kid_call; [exact Hk|reflexivity|]. cbn [req_ctx]. destruct (ml_mixed ln); [reflexivity|exact Hs]. }
+            pose proof kids_nc as K. rewrite Forall_forall in K. rewrite (K node Hk). apply post_ret. apply trivia_unb.
+          * intros x Hx. apply post_ret. apply unb_append; assumption.
+        + intros d1 Hd1. apply post_ret. rewrite Hbr. exact Hd1.
+      - intros d Hd. apply post_ret. rewrite (rs_calm_multi t Hrs).
+        apply unb_enclose; [| |exact Hd].
+        + destruct (scope_eqb sc0 ScDocument || scope_eqb sc0 ScItem).
+          * destruct (mr_start (collect_markup_repr kids)); try discriminate Hsb; reflexivity.
+          * destruct (mr_start (collect_markup_repr kids)); try discriminate Hsb; cbn [with_mode c_supp negb]; rewrite ?Hs; cbn [negb];
+              rewrite ?Bool.orb_true_r, ?Bool.andb_false_r, ?Bool.orb_false_r;
+              repeat match goal with |- context [if ?b then _ else _] => destruct b end; reflexivity.
+        + destruct (scope_eqb sc0 ScDocument || scope_eqb sc0 ScItem).
+          * destruct (mr_end (collect_markup_repr kids)); try discriminate Heb; reflexivity.
+          * destruct (mr_end (collect_markup_repr kids)); try discriminate Heb; cbn [with_mode c_supp negb]; rewrite ?Hs; cbn [negb];
+              rewrite ?Bool.orb_true_r, ?Bool.andb_false_r, ?Bool.orb_false_r;
+              repeat match goal with |- context [if ?b then _ else _] => destruct b end; reflexivity.
+    Qed.
+
+    Lemma markup_body_unb c sc0 : c_supp c = true -> post (call_markup_body kids c sc0) unb.
+    Proof.
+      intros Hs. unfold call_markup_body. destruct (find (fun b => kind_eqb (bk b) KMarkup) kids) as [m|] eqn:Ef.
+      - apply find_some in Ef. apply kid_call; [exact (proj1 Ef)|exact (proj2 Ef)|exact Hs].
+      - apply post_bump_then. apply post_ret. reflexivity.
+    Qed.
+    Lemma content_block_unb c : c_supp c = true -> post (convert_content_block swidth cfg kids c) unb.
+    Proof.
+      intros Hs. unfold convert_content_block. apply (post_bind _ _ unb); [apply markup_body_unb; exact Hs|].
+      intros d Hd. apply post_ret. apply unb_enclose; try apply unb_text. apply unb_group. apply unb_nest. exact Hd.
+    Qed.
+    Lemma strong_unb c : c_supp c = true -> post (convert_strong swidth kids c) unb.
+    Proof.
+      intros Hs. unfold convert_strong. apply (post_bind _ _ unb); [apply markup_body_unb; exact Hs|].
+      intros d Hd. apply post_ret. apply unb_enclose; try apply unb_text. exact Hd.
+    Qed.
+    Lemma emph_unb c : c_supp c = true -> post (convert_emph swidth kids c) unb.
+    Proof.
+      intros Hs. unfold convert_emph. apply (post_bind _ _ unb); [apply markup_body_unb; exact Hs|].
+      intros d Hd. apply post_ret. apply unb_enclose; try apply unb_text. exact Hd.
     Qed.
 
     (* --- import --- *)
@@ -838,7 +993,8 @@ Section Hereditary.
               | apply parenthesized_unb; exact Hs
               | apply field_access_unb; [exact Et|exact Ek|exact Hs]
               | apply binary_unb; [exact Ek|exact Hs] | apply closure_unb; exact Hs | apply for_unb; exact Hs
-              | apply set_rule_unb; exact Hs | apply func_call_unb; [exact E|exact Et|exact Ek|exact Hs] ].
+              | apply set_rule_unb; exact Hs | apply func_call_unb; [exact E|exact Et|exact Ek|exact Hs]
+              | apply content_block_unb; exact Hs | apply strong_unb; exact Hs | apply emph_unb; exact Hs ].
     Qed.
     Lemma expr_unb self c : bt self = t -> bkids self = kids -> c_supp c = true -> post (convert_expr swidth cfg self c) unb.
     Proof.
@@ -856,6 +1012,8 @@ Section Hereditary.
                 | apply destructuring_unb; exact Hs
                 | apply parenthesized_unb; exact Hs
                 | apply expr_unb; [reflexivity|reflexivity|exact Hs] ].
+      - apply markup_unb; exact Hs.
+      - apply content_block_unb; exact Hs.
       - unfold convert_embedded_expr. unfold bk. cbn [bt bkids].
         destruct (kind_eqb (kind_of t) KParenthesized);
           [apply post_bump_then; apply check_disabled_unb; apply parenthesized_unb; exact Hs
